@@ -144,7 +144,7 @@ class Array(
 
                 if not getattr(instance, "_skip_validation", False):
                     if len(self.items) > len(value) or (
-                        additional_properties_forbidden and len(self.items) > len(value)
+                        additional_properties_forbidden and len(self.items) < len(value)
                     ):
                         raise ValueError(
                             f"{self._name}: Got {value}; Expected an array of length {len(self.items)}"
